@@ -64,8 +64,31 @@ def steps_of(case: dict[str, Any]) -> int:
     return n
 
 
-def run_case(case: dict[str, Any], root: str, store: str, fmt: str) -> dict[str, Any]:
-    """Returns {'steps': n, 'violation': None|str, 'traces': [...], 'skipped': reason|None}."""
+def states_of(case: dict[str, Any]) -> list[dict[str, str]]:
+    """File contents (path -> text) of every step of a multi-step case; step k = base + all .2 .. .k changes."""
+    nsteps = steps_of(case)
+    cur: dict[str, str] = {"main": case["main"]}
+    for k, v in case["files"].items():
+        if not re.search(r"\.\d+$", k):
+            cur[k] = v
+    states = [dict(cur)]
+    for step in range(2, nsteps + 1):
+        for k, v in case["files"].items():
+            m = re.search(r"^(.*)\.(\d+)$", k)
+            if m and int(m.group(2)) == step:
+                cur[m.group(1)] = v
+        for k in case["deletes"]:
+            m = re.search(r"^(.*)\.(\d+)$", k)
+            if m and int(m.group(2)) == step:
+                cur.pop(m.group(1), None)
+        states.append(dict(cur))
+    return states
+
+
+def run_case(case: dict[str, Any], root: str, store: str, fmt: str, order: str = "forward") -> dict[str, Any]:
+    """Returns {'steps': n, 'violation': None|str, 'traces': [...], 'skipped': reason|None}.
+    order: 'forward' = the case's own steps 1..n; 'back' = 1..n then n-1..1 (every edit undone again: histories the
+    repository's suite does not contain); 'reverse' = n..1."""
     out: dict[str, Any] = {"name": case["name"], "steps": 0, "violation": None, "traces": [], "skipped": None, "nontrivial": False}
     text = case["main"]
     if case["name"].endswith(("-skip", "-xfail", "-posix", "-windows")) or "--bazel" in text or "--skip-cache-mtime-checks" in text or "--skip-version-check" in text:
@@ -81,7 +104,14 @@ def run_case(case: dict[str, Any], root: str, store: str, fmt: str) -> dict[str,
         if fx:
             shutil.copy(os.path.join(REPO, "test-data", "unit", fx), os.path.join(src, name))
     tick = 1000
-    nsteps = steps_of(case)
+    states = states_of(case)
+    nsteps = len(states)
+    seq = list(range(1, nsteps + 1))
+    if order == "back":
+        seq = seq + seq[-2::-1]
+    elif order == "reverse":
+        seq = seq[::-1]
+    on_disk: dict[str, str] = {}
 
     def put(rel: str, txt: str) -> None:
         nonlocal tick
@@ -93,21 +123,17 @@ def run_case(case: dict[str, Any], root: str, store: str, fmt: str) -> dict[str,
         t = 1_000_000 + tick * 10
         os.utime(p, (t, t))
 
-    put("main", text)
-    for k, v in case["files"].items():
-        if not re.search(r"\.\d+$", k):
-            put(k, v)
     st_tick = 0
-    for step in range(1, nsteps + 1):
-        if step > 1:
-            for k, v in case["files"].items():
-                m = re.search(r"^(.*)\.(\d+)$", k)
-                if m and int(m.group(2)) == step:
-                    put(m.group(1), v)
-            for k in case["deletes"]:
-                m = re.search(r"^(.*)\.(\d+)$", k)
-                if m and int(m.group(2)) == step and os.path.exists(os.path.join(src, m.group(1))):
-                    os.unlink(os.path.join(src, m.group(1)))
+    for pos, step in enumerate(seq):
+        target = states[step - 1]
+        for k in sorted(set(on_disk) - set(target)):
+            if os.path.exists(os.path.join(src, k)):
+                os.unlink(os.path.join(src, k))
+            del on_disk[k]
+        for k, v in target.items():
+            if on_disk.get(k) != v:
+                put(k, v)
+                on_disk[k] = v
         flags = re.search(r"# flags: (.*)$", text, flags=re.M)
         f2 = re.search(r"# flags%d: (.*)$" % step, text, flags=re.M) if step > 1 else None
         flag_list = [x for x in ((f2 or flags).group(1).split() if (f2 or flags) else []) if x not in ("-v", "-vv", "--verbose")]
@@ -140,9 +166,105 @@ def run_case(case: dict[str, Any], root: str, store: str, fmt: str) -> dict[str,
             out["skipped"] = "harness cannot run this case cold: " + (cold.get("crash") or "")[-200:]
             return out
         if warm.get("crash") or W.norm(warm) != W.norm(cold):
-            out["violation"] = "step %d: warm status %s %r ; cold status %s %r %s" % (
-                step, warm["status"], warm["messages"][:4], cold["status"], cold["messages"][:4], (warm.get("crash") or "")[-300:])
+            out["violation"] = "step %d (position %d of %s): warm status %s %r ; cold status %s %r %s" % (
+                step, pos + 1, seq, warm["status"], warm["messages"][:4], cold["status"], cold["messages"][:4], (warm.get("crash") or "")[-300:])
+            out["at"] = seq[: pos + 1]
             return out
-        if step > 1 and any(e["ev"] == "fresh" for e in warm["trace"]) and any(e["ev"] == "stale" for e in warm["trace"]):
+        if pos > 0 and any(e["ev"] == "fresh" for e in warm["trace"]) and any(e["ev"] == "stale" for e in warm["trace"]):
             out["nontrivial"] = True
+    return out
+
+
+# ------------------------------------------------------------------------------------------------
+# Corpus-wide reload: EVERY single-step case of test-data/unit/check-*.test is a program whose
+# diagnostics must survive the cache: (R0) cache-less run = (R1) run that writes the cache = (R2) run with
+# nothing edited (every module fresh: diagnostics replayed from meta_ex) = (R3) run after a
+# semantically neutral edit of the main file (main re-analysed against dependencies DESERIALISED from
+# the cache: data records, fixup) = (R4, thorough) run after a neutral edit of every other module.
+# Expected outputs of the cases are ignored; the oracle is R0.
+RELOAD_EXCLUDE = ("check-incremental.test", "check-serialize.test", "check-modules-case.test", "check-reports.test",
+                  "check-custom-plugin.test", "check-modules-fast.test")
+
+
+def reload_files() -> list[str]:
+    d = os.path.join(REPO, "test-data", "unit")
+    return sorted(f for f in os.listdir(d) if f.startswith("check-") and f.endswith(".test") and f not in RELOAD_EXCLUDE)
+
+
+def reload_case(case: dict[str, Any], root: str, store: str, fmt: str, deep: bool = False) -> dict[str, Any]:
+    out: dict[str, Any] = {"name": case["name"], "steps": 0, "violation": None, "traces": [], "skipped": None, "nontrivial": False}
+    text = case["main"]
+    if case["name"].endswith(("-skip", "-xfail", "-posix", "-windows")) or "--bazel" in text or "--skip-cache-mtime-checks" in text \
+            or "--skip-version-check" in text or "# cmd" in text or "plugin" in text or any("plugin" in k for k in case["files"]):
+        out["skipped"] = "skipped by the repository / unsupported"
+        return out
+    if any(re.search(r"\.\d+$", k) for k in list(case["files"]) + case["deletes"]):
+        out["skipped"] = "multi-step case"
+        return out
+    flags = re.search(r"# flags: (.*)$", text, flags=re.M)
+    flag_list = [x for x in (flags.group(1).split() if flags else []) if x not in ("-v", "-vv", "--verbose")]
+    flag_list += ["--no-site-packages", "--no-error-summary"]
+    if any(x.startswith(("--cache-dir", "--config-file", "--no-incremental", "--incremental", "--sqlite", "--no-sqlite",
+                         "--cache-fine", "--num-workers", "-n", "--junit", "--shadow-file")) or x.endswith("-report") for x in flag_list):
+        out["skipped"] = "flags move the cache / config"
+        return out
+    src, cache = os.path.join(root, "src"), os.path.join(root, "cache")
+    os.makedirs(src, exist_ok=True)
+    for fx, name in ((case["builtins"], "builtins.pyi"), (case["typing"], "typing.pyi")):
+        if fx:
+            shutil.copy(os.path.join(REPO, "test-data", "unit", fx), os.path.join(src, name))
+    tick = 1000
+
+    def put(rel: str, txt: str) -> None:
+        nonlocal tick
+        p = os.path.join(src, rel)
+        os.makedirs(os.path.dirname(p) or src, exist_ok=True)
+        with open(p, "w", encoding="utf8") as f:
+            f.write(txt)
+        tick += 1
+        t = 1_000_000 + tick * 10
+        os.utime(p, (t, t))
+
+    put("main", text)
+    for k, v in case["files"].items():
+        put(k, v)
+    kw = dict(sources=[("main", "__main__")], user_mods="*", extra_opts={"cli_args_nosrc": flag_list})
+    r0 = W.run_build(src, cache_dir=None, record=False, **kw)
+    if r0.get("crash") or r0["status"] in (3, 4):
+        out["skipped"] = "harness cannot run this case cold: " + (r0.get("crash") or "")[-200:]
+        return out
+    st_tick = 0
+
+    def step(label: str) -> bool:
+        nonlocal st_tick
+        w = W.run_build(src, cache_dir=cache, store=store, fmt=fmt, tick=st_tick, **kw)
+        st_tick = w["tick"]
+        out["steps"] += 1
+        out["traces"].append(w["trace"])
+        if any(e["ev"] == "fresh" for e in w["trace"]) and any(e["ev"] == "stale" for e in w["trace"]):
+            out["nontrivial"] = True
+        if w.get("crash") or W.norm(w) != W.norm(r0):
+            wm, cm = set(w["messages"]), set(r0["messages"])
+            out["violation"] = "%s: status %s vs cold %s; only warm %r ; only cold %r %s" % (
+                label, w["status"], r0["status"], sorted(wm - cm)[:3], sorted(cm - wm)[:3], (w.get("crash") or "")[-300:])
+            out["label"] = label
+            return False
+        return True
+
+    if not step("write"):
+        return out
+    if not step("replay"):
+        return out
+    put("main", text + ("" if text.endswith("\n") else "\n") + "# neutral edit\n")
+    # the oracle for the edited text is a cold run on it (a trailing comment changes nothing, but be exact)
+    r0 = W.run_build(src, cache_dir=None, record=False, **kw)
+    if not step("reload-deps"):
+        return out
+    if deep and case["files"]:
+        for k, v in case["files"].items():
+            if k.endswith((".py", ".pyi")):
+                put(k, v + ("" if v.endswith("\n") else "\n") + "# neutral edit\n")
+        r0 = W.run_build(src, cache_dir=None, record=False, **kw)
+        if not step("reload-main"):
+            return out
     return out
